@@ -622,5 +622,64 @@ def r18_9(ctx):
     return r
 
 
+def r18_10(ctx):
+    """'one source is committed according to the documented rules (marker start, consecutive run, majority)'. The
+    majority rule is a comparator handed to max_by: more observed packets win, and among sources with the same count
+    the one whose stream started EARLIER (lower first sequence number) wins - under max_by that is a tie-break with the
+    operands swapped. The comparator is small enough to be read exactly: primary key cmp(a.packet_count,
+    b.packet_count); tie-break cmp(b.first_seq, a.first_seq), or its serial-arithmetic form
+    (b.first_seq.wrapping_sub(a.first_seq) as i16).cmp(&0). Anything else - in particular the same tie-break with a and b
+    the natural way round - commits the latch to the LATER starter (typically the stale NAT port)."""
+    r = RuleResult("R18.10", "K6", "majority rule: most packets win, ties go to the source that started first")
+    b = ctx.body(RECEIVE)
+    r.scope.append(RECEIVE)
+    comps = []
+    for bi, t, p in b.calls():
+        if p and p.endswith("::max_by") and bi not in b.cleanup and mir.has_field(b.term_call(t), "candidates"):
+            for a in t["a"]:
+                ta = b.term_operand(a)
+                if ta[0] == "closure" and ctx.facts.has_body(ta[1]):
+                    comps.append((bi, ctx.facts.body(ta[1])))
+    r.need("majority comparators (max_by over the probation candidates)", len(comps), 1)
+
+    def side(term):
+        # which comparator argument a term reads: 'a' / 'b' (first / second closure parameter)
+        names = {x[1] for x in mir.walk(term) if x[0] == "arg"}
+        names |= {x[2][6:] if x[2].startswith("_ref__") else x[2]
+                  for x in mir.walk(term) if x[0] == "field" and x[1] == ("env",)}      # captured by a nested closure (then_with)
+        return names.pop() if len(names) == 1 else None
+    for bi, cb in comps:
+        r.scope.append(cb.name)
+        params = [cb.local_name(i) for i in range(1, cb.argc + 1)]
+        # closure params: (env, a, b)
+        pa, pb = (params[-2], params[-1]) if len(params) >= 2 else (None, None)
+        primary = tie = None
+        bodies = [cb] + [nb for nb in ctx.facts.all_bodies() if nb.name.startswith(cb.name + "::{closure")]
+        for cb2, ci, ct, cp in [(q, ci, ct, cp) for q in bodies for ci, ct, cp in q.calls()]:
+            if not cp or not cp.endswith("::cmp") or len(ct["a"]) != 2:
+                continue
+            x, y = cb2.term_operand(ct["a"][0]), cb2.term_operand(ct["a"][1])
+            if mir.has_field(x, "packet_count") and mir.has_field(y, "packet_count"):
+                primary = (side(x), side(y), cb2.where(ci))
+            elif mir.has_field(x, "first_seq") and mir.has_field(y, "first_seq"):
+                tie = (side(x), side(y), cb2.where(ci))
+            elif mir.has_field(x, "first_seq") and mir.int_value(y) == 0:
+                # (P.first_seq.wrapping_sub(Q.first_seq) as i16).cmp(&0)
+                ws = [z for z in mir.walk(x) if z[0] == "call" and z[1].endswith("wrapping_sub") and len(z[2]) == 2]
+                if ws:
+                    tie = (side(ws[0][2][0]), side(ws[0][2][1]), cb2.where(ci))
+        if primary and primary[:2] == (pa, pb):
+            r.ok({"site": primary[2], "primary": "cmp(a.packet_count, b.packet_count): more packets win under max_by"})
+        else:
+            r.violate(cb.name, "majority:primary", b.where(bi), "the majority comparator does not order the candidates by packet count (a before b)")
+        if tie and tie[:2] == (pb, pa):
+            r.ok({"site": tie[2], "tie-break": "first_seq compared b-before-a: under max_by the earlier starter wins"})
+        else:
+            r.violate(cb.name, "majority:tie-break", b.where(bi),
+                      "a packet-count tie at the end of the probation window is not decided for the source with the lower first sequence number "
+                      "(tie-break operands: %s): the latch commits to the later starter and stays there" % (tie[:2] if tie else "not found",))
+    return r
+
+
 def run(ctx):
-    return [r18_1(ctx), r18_2(ctx), r18_3(ctx), r18_4(ctx), r18_5(ctx), r18_6(ctx), r18_7(ctx), r18_8(ctx), r18_9(ctx)]
+    return [r18_1(ctx), r18_2(ctx), r18_3(ctx), r18_4(ctx), r18_5(ctx), r18_6(ctx), r18_7(ctx), r18_8(ctx), r18_9(ctx), r18_10(ctx)]
